@@ -438,6 +438,7 @@ def apisan_enum(tier):
 
 
 def finalize(cov, agg, tier):
+    fuzzrun.finalize(cov, agg, "fuzzmaps")
     g = agg.get("apisan")
     if g is not None:
         per = {}
@@ -449,8 +450,17 @@ def finalize(cov, agg, tier):
         cov["per_subcheck"]["apisan"]["max_observed"] = {}
 
 
+# ------------------------------------------------------------------ coverage-guided (libFuzzer, fuzz/fuzz_maps.cpp, oracle "memory")
+from vlib import fuzzrun  # noqa: E402
+
+MAPS_CORPUS = [bytes(range(200)), bytes([0] * 64), bytes([255, 3, 128, 64] * 64), bytes([17, 200, 90] * 100) + bytes([1, 9, 2, 3, 1, 0])]
+run_fuzzmaps = fuzzrun.make_runner("c17", "VERIF_FUZZMAPS", MAPS_CORPUS, max_len=4096, env_extra={"VERIF_MAPS_ORACLE": "memory"})
+
+
 def subs(tier):
-    return [Sub("apisan", st.just({}), run_apisan, quick=1, thorough=1, needs=("shimsan",), enum=apisan_enum,
+    return [Sub("fuzzmaps", st.just({}), run_fuzzmaps, quick=1, thorough=1, needs=("fuzzmaps",),
+                enum=lambda t: fuzzrun.campaigns(t, 12000, 1500000), max_wall={"quick": 400, "thorough": 3000}),
+            Sub("apisan", st.just({}), run_apisan, quick=1, thorough=1, needs=("shimsan",), enum=apisan_enum,
                 max_wall={"quick": 500, "thorough": 3200}),
             Sub("fuzz", st.just({}), run_fuzz, quick=1, thorough=1, needs=("fuzz",), enum=fuzz_enum,
                 max_wall={"quick": 400, "thorough": 3000}),
